@@ -220,6 +220,10 @@ macro_rules! six {
         chk!($c, concat!($name, ".vr"), $x $op &$y, &e);
         chk!($c, concat!($name, ".rv"), &$x $op $y, &e);
         chk!($c, concat!($name, ".rr"), &$x $op &$y, &e);
+        if $x == $y {
+            // both operands are the very same object
+            chk!($c, concat!($name, ".rr.alias"), &$x $op &$x, &e);
+        }
         chk!($c, concat!($name, "Assign.v"), { let mut z = $x; z $opa $y; z }, &e);
         chk!($c, concat!($name, "Assign.r"), { let mut z = $x; z $opa &$y; z }, &e);
     }};
@@ -767,9 +771,21 @@ fn sum_product<const B: usize, const L: usize>(c: &mut Cx, a: &[Arg]) {
     let e = inh!(c, xs.iter().fold(<U!()>::ZERO, |s, v| s.wrapping_add(*v)));
     chk!(c, "Sum<Uint>", xs.iter().copied().sum::<U!()>(), &e);
     chk!(c, "Sum<&Uint>", xs.iter().sum::<U!()>(), &e);
+    macro_rules! each_sum {
+        ($label:literal, $f:expr) => {
+            chk!(c, concat!("Sum.", $label), $f, &e);
+        };
+    }
+    vmon::iter_kinds!(xs, Uint<B, L>, sum; each_sum);
     let e = inh!(c, xs.iter().fold(<U!()>::ONE, |s, v| s.wrapping_mul(*v)));
     chk!(c, "Product<Uint>", xs.iter().copied().product::<U!()>(), &e);
     chk!(c, "Product<&Uint>", xs.iter().product::<U!()>(), &e);
+    macro_rules! each_product {
+        ($label:literal, $f:expr) => {
+            chk!(c, concat!("Product.", $label), $f, &e);
+        };
+    }
+    vmon::iter_kinds!(xs, Uint<B, L>, product; each_product);
 }
 
 // ---------------------------------------------------------------- Zeroize
